@@ -5,7 +5,7 @@
 # against it.  To find ALL the tie theorems a mutant breaks (not only the first), the failing proof is replaced
 # by `Admitted` IN THE SCRATCH COPY and the file is compiled again, until it goes through.
 # Expected: the baseline compiles with no broken theorem; every semantic mutant breaks exactly the listed
-# theorem(s); an untranslatable edit gives TRANSLATE-ERROR (exit 2).  The cases run in parallel.
+# theorem(s); an untranslatable edit gives TRANSLATE-ERROR (exit 3: the unit fails alone; 2: fatal).  The cases run in parallel.
 # usage: tools/resttie_selftest.sh        (needs the main tree built: coq/Proofs/BufTie.vo)
 ROOT=$(cd "$(dirname "$0")/.." && pwd)
 COQ=$ROOT/coq
